@@ -291,11 +291,14 @@ QUAL_NAME = st.one_of(
                      'Association', 'Indication', 'Q1', 'Version']),
     IDENT).filter(lambda s: s.lower() not in ('embeddedinstance',
                                               'embeddedobject', 'abstract'))
-QUAL_TYPE = st.sampled_from(S.QUAL_TYPES)
-SIMPLE_TYPE = st.sampled_from(S.SIMPLE_TYPES)
+# (Hypothesis favours the first elements of sampled_from)
+QUAL_TYPE = st.sampled_from(['string'] * 5 + [
+    'char16', 'datetime', 'real32', 'real64'] + S.QUAL_TYPES)
+SIMPLE_TYPE = st.sampled_from(['string', 'string', 'char16', 'real64',
+                               'datetime'] + S.SIMPLE_TYPES)
 SCOPE_DICT = st.dictionaries(st.sampled_from(SCOPES), st.booleans(),
                              max_size=8)
-SMALL = st.integers(0, 9)
+SMALL = st.sampled_from(range(10))     # uniform (integers() is not)
 MASK = st.integers(1, 2 ** 12)
 
 
@@ -316,7 +319,7 @@ def qualdecl_recipe(draw, for_use=False):
         value = draw(value_for(t, is_array, 2, asz))
         sc = draw(SCOPE_DICT)
         sc[draw(st.sampled_from(SCOPES))] = True      # at least one scope
-        if draw(SMALL) == 0:
+        if draw(SMALL) == 7:
             sc = {s: True for s in SCOPES}
         scopes = sorted(sc.items())
     return {'k': 'qualdecl', 'name': name, 'type': t, 'value': value,
@@ -346,7 +349,7 @@ def _quals_from(draw, decls, max_size=2):
         d = decls[i]
         v = draw(value_for(d['type'], d['is_array'], 1, d['array_size']))
         name = d['name']
-        if draw(SMALL) == 0:
+        if draw(SMALL) == 7:
             name = _swap(name, draw(MASK))
         out.append({'k': 'qual', 'name': name, 'type': d['type'], 'value': v,
                     'is_array': d['is_array'], 'propagated': None,
@@ -442,7 +445,8 @@ MAXLINE = st.one_of(st.sampled_from([40, 41, 60, 80, 80, 100, 200]),
 
 # ---- instances
 
-INST_PLAIN_TYPE = st.sampled_from(S.SIMPLE_TYPES + ['string', 'string'])
+INST_PLAIN_TYPE = st.sampled_from(['string', 'string', 'char16', 'real32',
+                                   'datetime'] + S.SIMPLE_TYPES)
 INST_KIND0 = st.sampled_from(['plain'] * 7 + ['ref'])
 INST_KIND1 = st.sampled_from(['plain'] * 7 + ['ref', 'emb', 'emb', 'emb'])
 INST_REF = st.one_of(st.none(), REF_PATH, REF_PATH, REF_PATH)
@@ -492,12 +496,12 @@ def inst_recipe(draw, depth, cname):
             asz = draw(ARRAY_SIZE) if is_array else None
             value = draw(value_for(t, is_array, 2, asz))
         spell = name
-        if draw(SMALL) == 0:
+        if draw(SMALL) == 7:
             spell = _swap(name, draw(MASK))
         props.append({'name': name, 'type': t, 'is_array': is_array,
                       'array_size': asz, 'emb': emb, 'refcls': refcls,
                       'value': value, 'spell': spell,
-                      'in_inst': draw(SMALL) > 0})
+                      'in_inst': draw(SMALL) != 7})
     if not any(p['in_inst'] for p in props):
         props[0]['in_inst'] = True
     return {'k': 'c08inst', 'classname': cname, 'props': props}
@@ -1404,7 +1408,8 @@ def mofstr_oracle(ctx, ex):
         if fold_splits_escape(out):
             ctx.fail('tomof:fold-splits-escape-sequence', detail)
         else:
-            ctx.fail('lexer-rejects-literal:%s' % bad.type, detail)
+            ctx.fail('lexer-rejects-literal',
+                     '%s\ntoken %r' % (detail, bad))
     else:
         try:
             # pylint: disable=protected-access
